@@ -90,9 +90,9 @@ TIES = {
                           ("C19", ["DsProofs.TieE.TIEE_from_data", "DsProofs.TieE.TIEE_roundtrip_stored"])]),
     "units": dict(translator="translate_units", targets=["GenR", "TieR"], audit="AuditTieR.lean", root="TieR", driver=None,
                   modules=["GenR.Units", "TieR.Properties"],
-                  what="the unit / candidate registry: Units.__init__ / __getitem__ / union, Units.Unit.__eq__, Equality.data, the lookups of Equality.from_data (template translation, harness/translate_units.py -> lean/GenR/Units.lean)",
+                  what="the unit / candidate registry: Units.__init__ / __getitem__ / union / prefix, Units.Unit.__eq__, Equality.data, the lookups of Equality.from_data (template translation, harness/translate_units.py -> lean/GenR/Units.lean)",
                   reg=[("C11", ["DsProofs.TieR.TIER_init", "DsProofs.TieR.TIER_getitem", "DsProofs.TieR.TIER_eq_ok", "DsProofs.TieR.TIER_eq_err", "DsProofs.TieR.TIER_from_data",
-                                "DsProofs.TieR.TIER_union", "DsProofs.TieR.TIER_roundtrip"]),
+                                "DsProofs.TieR.TIER_union", "DsProofs.TieR.TIER_prefix", "DsProofs.TieR.TIER_union_prefixed", "DsProofs.TieR.TIER_roundtrip"]),
                        ("C12", ["DsProofs.TieR.TIER_init", "DsProofs.TieR.TIER_getitem"])]),
     "provinit": dict(translator="translate_init", targets=["GenI", "TieI"], audit="AuditTieI.lean", root="TieI", driver=None,
                      modules=["GenI.Init", "TieI.Properties"],
